@@ -30,6 +30,7 @@ class Checker:
         self.expect_blob = None     # bytes count of a blob Python is about to read
         self.dying = False
         self.counts = {}
+        self.desync_detected = False
 
     def bad(self, i, code, detail):
         self.anomalies.append((i, code, str(detail)[:300]))
@@ -48,6 +49,8 @@ class Checker:
         head, nl, rest = text.partition("\n")
         words = head.split(" ")
         cmd = words[0]
+        if self.desync_detected and cmd not in ("alive", "shutdown_daemon"):
+            self.bad(i, "processor-reused-after-failed-liveness-probe", repr(head[:80]))
         # answers to daemon-initiated requests
         if self.daemon_req in ("inherit", "bashrcs"):
             if cmd in ("path", "transfer") and self.daemon_req_stage == 0:
@@ -172,6 +175,12 @@ class Checker:
             label, pred = self.pending.popleft()
             self.c("replies_matched")
             if not pred(line):
+                if label == "yep!":
+                    # a failed liveness probe: Python sees the mismatch and must give the processor up
+                    self.desync_detected = True
+                    self.c("failed_liveness_probes")
+                    self.bad(i, "liveness-probe-got-other-line", "expected yep!, got %r" % (line[:120],))
+                    return
                 self.bad(i, "reply-does-not-match-request", "expected %s, got %r" % (label, line[:120]))
             elif line == "env_receiving_failed":
                 pass
